@@ -44,11 +44,12 @@ def main():
     pkg = open(demo).read().split("package ", 1)[1].split()[0]
     shutil.copyfile(demo, demo_dst)
     try:
-        rc, out = sh("go test -vet=off -count=1 -run 'Seed|Demo|Test' -timeout 120s . 2>&1 | tail -5", cwd=wt)
         names = subprocess.run("grep -oE '^func (Test[A-Za-z0-9_]+)' %s | awk '{print $2}' | paste -sd'|'" % demo_dst, shell=True, stdout=subprocess.PIPE, text=True).stdout.strip()
         run = "go test -vet=off -count=1 -run '^(%s)$' -timeout 180s ." % names
         rc0, out0 = sh(run, cwd=wt)
         note("demo_passes_on_head", rc0 == 0)
+        if rc0 != 0:
+            print(out0[-1500:])
         meta["ran"].append(run + " (HEAD) -> rc=%d" % rc0)
         rc, out = sh("git apply %s" % patch, cwd=wt)
         if rc != 0:
@@ -63,7 +64,7 @@ def main():
         os.remove(demo_dst)
         suite = []
         for i in range(3):
-            rc, out = sh("go test -vet=off -count=1 ./... 2>&1 | grep -v 'no test files' | tail -4", cwd=wt)
+            rc, out = sh("go test -vet=off -count=1 $(go list ./... | grep -v /out) 2>&1 | grep -v 'no test files' | tail -4", cwd=wt)
             suite.append("FAIL" not in out and "ok" in out)
         note("existing_suite_passes_with_patch", suite)
         meta["ran"].append("go test -vet=off -count=1 ./... x3 (patched) -> %s" % suite)
